@@ -117,3 +117,75 @@ end XPathV.Theorems.NonVacuity.C09
 section AxiomAudit
 open XPathV.Theorems.NonVacuity.C09
 end AxiomAudit
+
+/-! ## `C09_nested_with_paths`: node-set leaves (flat filtered paths) -/
+namespace XPathV.Theorems.NonVacuity.C09
+open XPathV XPathV.Model XPathV.Theorems.NonVacuity XPathV.PosSem XPathV.StringFns XPathV.StringFns2
+open XPathV.ArithSem2 (FlatF2)
+
+attribute [local instance] toyAlg
+
+def tP : String := "concat(substring-before(*[@x < @y]/@y, '0'), '-', normalize-space(a))"
+
+private def chA (n : String) : AxisInfo := ⟨"child", .elem, "", n, "", false, ""⟩
+private def atA (n : String) : AxisInfo := ⟨"attribute", .attr, "", n, "", false, ""⟩
+
+/-- `*[@x < @y]/@y` -/
+def pY : Ast := .axis (atA "y") (.filter (.axis (chA "") .none) (.oper "<" (.axis (atA "x") .none) (.axis (atA "y") .none)))
+/-- `a` -/
+def pA : Ast := .axis (chA "a") .none
+
+def eP : Ast := .call "concat" "" (Ast.ofArgList
+  [.call "substring-before" "" (.acons pY (.acons (.str "0") .anil)), .str "-",
+   .call "normalize-space" "" (.acons pA .anil)])
+
+theorem eP_parsed : ParsesTo tP eP := ApiSem.parsesTo_eq (by decide +kernel)
+
+theorem pY_flatF2 : FlatF2 pY :=
+  ⟨.axis _ _ (.filter _ _ (.axis _ _ .none (by decide))
+      (.cmpPath _ _ _ (by decide) (.axis _ _ .none (by decide)) (.axis _ _ .none (by decide)))) (by decide),
+    .axis _ _ (by decide) (.filter _ _ (.axis _ _ (by decide) .none))⟩
+
+theorem pA_flatF2 : FlatF2 pA := ⟨.axis _ _ .none (by decide), .axis _ _ (by decide) .none⟩
+
+/-- the side condition of `normalize-space(a)` at `r`: the oracle reads `a` as `"t"` -/
+theorem pA_normDom : NormDom d0 ⟨.node 1, 1, 1⟩ Int pA := by
+  intro v g h
+  have ev : (match Spec.eval (F := Int) d0 pA ⟨.node 1, 1, 1⟩ with
+      | .ok r => Spec.toStr d0 r.value | .error _ => "?") = "t" := by decide +kernel
+  rw [h] at ev
+  have e2 : Spec.toStr d0 v = "t" := ev
+  rw [e2]
+  intro ch hch
+  have : ch ∈ ['t'] := hch
+  simp only [List.mem_cons, List.not_mem_nil, or_false] at this
+  subst this; decide
+
+theorem eP_strE2 : StrE2 d0 ⟨.node 1, 1, 1⟩ Int eP :=
+  .concat "" _ (by decide) (by
+    intro a ha
+    simp only [List.mem_cons, List.not_mem_nil, or_false] at ha
+    rcases ha with rfl | rfl | rfl
+    · exact .arg _ (.substringBefore _ _ _ (.path _ pY_flatF2) (.arg _ (.lit _)))
+    · exact .arg _ (.lit _)
+    · exact .arg _ (.normalizeSpace _ _ (.path _ pA_flatF2) pA_normDom))
+
+/-- **`C09_nested_with_paths`** at `concat(substring-before(*[@x < @y]/@y, '0'), '-', normalize-space(a))`,
+context `r` of `d0`, every hypothesis discharged (`WF`, `nsIface`, `HashInj`, `validRef`, `StrE2` with
+`FlatF2` and `NormDom` inside, `build = .ok`): `*[@x < @y]/@y` is `b/@y = "3"`, `a` reads as the
+string-value `"t"` of the first `a`; both sides give `"-t"` -/
+theorem C09_nested_with_paths_instance :
+    ∃ (o : BOut), build (fun _ => true) 100 true false eP {} {} = .ok o ∧
+    evalP (F := Int) d0 {} o.q (.node 1) = .ok (.str "-t") ∧
+    evaluate (F := Int) d0 {} o.q (.node 1) = .ok (.str "-t") := by
+  obtain ⟨o, hb⟩ : ∃ o, build (fun _ => true) 100 true false eP {} {} = .ok o := exists_ok (by decide +kernel)
+  obtain ⟨s, h1, h2, _, h4⟩ := Theorems.C09.C09_nested_with_paths (F := Int) wf_d0 {} rfl hashInj_d0
+    (fun _ => true) 100 (.node 1) (by decide) eP_strE2 {} o hb
+  have ev : Spec.evalTop (F := Int) d0 eP (.node 1) = .ok (.str "-t") := by decide +kernel
+  rw [ev] at h4; cases h4
+  exact ⟨o, hb, h1, h2⟩
+
+/-- the embedding `StrE → StrE2` at the literal-only example above -/
+example : StrE2 d0 ⟨.node 0, 1, 1⟩ Int e := Theorems.C09.C09_strE_embeds d0 _ e_strE
+
+end XPathV.Theorems.NonVacuity.C09
